@@ -33,7 +33,12 @@ def projection(payload):
     rnd = random.Random(payload.get("seed", 0))
     cases = 0
     obs, act = spaces.Box(-1, 1, (2,)), spaces.Discrete(2)
-    for (N, vmin, vmax) in ((2, 0.0, 1.0), (3, -1.0, 1.0), (5, -2.0, 2.0), (21, -10.0, 10.0), (51, 0.0, 200.0)):
+    configs = ((2, 0.0, 1.0), (3, -1.0, 1.0), (5, -2.0, 2.0), (21, -10.0, 10.0), (51, 0.0, 200.0))
+    forced = None
+    if payload.get("mode") == "replay":          # the verifier's counterexample: same support, reward, done flag, discount
+        configs = ((payload["N"], payload["vmin"], payload["vmax"]),)
+        forced = payload
+    for (N, vmin, vmax) in configs:
         agent = RainbowDQN(obs, act, num_atoms=N, v_min=vmin, v_max=vmax, batch_size=8,
                            net_config={"encoder_config": {"hidden_size": [64]}, "head_config": {"hidden_size": [64]}})
         dz = (vmax - vmin) / (N - 1)
@@ -42,10 +47,12 @@ def projection(payload):
             p = np.array([rnd.random() + 0.01 for _ in range(N)])
             p = p / p.sum()
             dist = torch.tensor(np.stack([p, p]), dtype=torch.float32)            # (actions, atoms)
-            gamma = rnd.choice([0.0, 0.5, 1.0, 0.99])
+            gamma = rnd.choice([0.0, 0.5, 1.0, 0.99]) if forced is None else forced["gamma"]
             # rewards inside, outside and exactly on atoms of the support; both done flags
             rewards = [vmin - 1, vmax + 1, vmin, vmax, support[N // 2], support[min(1, N - 1)], rnd.uniform(vmin, vmax), rnd.uniform(vmin, vmax)]
             dones = [rnd.choice([0.0, 1.0]) for _ in range(4)] + [1.0, 1.0, 0.0, 1.0]
+            if forced is not None:
+                rewards[0], dones[0] = forced["reward"], forced["done"]
             for mode in ("mass", "mean"):
                 logp = -torch.ones(2, N) if mode == "mass" else -torch.tensor(np.stack([support, support]), dtype=torch.float32)
                 object.__setattr__(agent, "actor", _Stub(dist, logp))
